@@ -100,7 +100,10 @@ TInit == l = 1
 TNext == /\ l <= Len(Trace)
          /\ LET e == Trace[l]
                 T == e.nodes
-            IN IF Len(T) = 0 THEN TRUE
+            IN IF e.kind = "slice"
+               THEN \* decode of a sliced binary: the root's bytes are exactly the slice that was decoded
+                    (IF e.got = e.want THEN TRUE ELSE PrintT(<<"REJECT", l, "bits.root_of_sliced_binary_is_not_the_slice">>))
+               ELSE IF Len(T) = 0 THEN TRUE
                ELSE IF Len(e.obs) # Len(T) THEN PrintT(<<"REJECT", l, "path.node_count_differs">>)
                ELSE Report(BitsSig(e, T)) /\ Report(PathSig(e, T))
          /\ l' = l + 1
